@@ -6,34 +6,62 @@ From V Require Import Base.Bits Gen.WireOps Gen.Helpers Gen.Prims.
 Lemma Wire_put_trunc w v : Wire_put w v = trunc w v.
 Proof. reflexivity. Qed.
 
-Lemma Constant_char w c : Constant_propagate w c = trunc w c.
-Proof. reflexivity. Qed.
+(* ---- shape-tolerant normalisation of the translated code.
+   masks:  x & ((1<<w)-1),  x % (1<<w),  Wire_put w x   ->  trunc w x   (nested same-width truncations collapse);
+   bits:   (v >> k) & 1,  (v >> k) % 2,  (v // 2**k) % 2,  (v // (1<<k)) % 2   ->  bitZ v k;
+   locals: cbv zeta.  The lemmas below state WHAT each leaf computes and are proved through these tactics, so renamed or
+   introduced locals, `%` instead of `&`, a missing or doubled mask, and commuted arithmetic do not break them. *)
+Lemma mod_shiftl_trunc x w : 0 <= w -> x mod Z.shiftl 1 w = trunc w x.
+Proof. intros; rewrite Z.shiftl_1_l, trunc_mod by lia; reflexivity. Qed.
+Lemma mod_pow_trunc x w : 0 <= w -> x mod 2 ^ w = trunc w x.
+Proof. intros; rewrite trunc_mod by lia; reflexivity. Qed.
+
+Ltac norm_masks :=
+  unfold Wire_put, py_shl, py_shr in *; cbv zeta;
+  repeat match goal with |- context [Z.land ?x (Z.shiftl 1 ?w - 1)] => change (Z.land x (Z.shiftl 1 w - 1)) with (trunc w x) end;
+  rewrite ?mod_shiftl_trunc, ?mod_pow_trunc by lia;
+  rewrite ?trunc_idem by lia.
+
+Lemma bit_shr_mod2 v k : 0 <= k -> Z.shiftr v k mod 2 = bitZ v k.
+Proof. intros. unfold bitZ. change 1 with (Z.ones 1). rewrite Z.land_ones by lia. reflexivity. Qed.
+Lemma bit_div_mod2 v k : 0 <= k -> (v / 2 ^ k) mod 2 = bitZ v k.
+Proof. intros. rewrite <- shiftr_div by lia. apply bit_shr_mod2; lia. Qed.
+Lemma bit_divshl_mod2 v k : 0 <= k -> (v / Z.shiftl 1 k) mod 2 = bitZ v k.
+Proof. intros. rewrite Z.shiftl_1_l. apply bit_div_mod2; lia. Qed.
+Lemma trunc1_bit v k : 0 <= k -> trunc 1 (bitZ v k) = bitZ v k.
+Proof. intros. apply trunc_small; [lia|]. pose proof (bitZ_range v k ltac:(lia)). change (2 ^ 1) with 2. lia. Qed.
+
+Ltac norm_bits :=
+  unfold py_shl, py_shr in *;
+  repeat match goal with |- context [Z.land (Z.shiftr ?v ?k) 1] => change (Z.land (Z.shiftr v k) 1) with (bitZ v k) end;
+  rewrite ?bit_shr_mod2, ?bit_div_mod2, ?bit_divshl_mod2 by lia;
+  rewrite ?trunc1_bit by lia.
+
+Ltac finish_arith := first [ reflexivity | f_equal; ring | f_equal; lia ].
+
+Lemma Constant_char w c : 0 <= w -> Constant_propagate w c = trunc w c.
+Proof. intros Hw. unfold Constant_propagate. norm_masks. finish_arith. Qed.
 
 Lemma Sub_char w a b : 0 <= w -> Sub_propagate w a b = trunc w (a - b).
-Proof. intros Hw. unfold Sub_propagate. cbv zeta. rewrite Wire_put_trunc. apply trunc_idem; lia. Qed.
+Proof. intros Hw. unfold Sub_propagate. norm_masks. finish_arith. Qed.
 
-Lemma Mul_char w a b : Mul_propagate w a b = trunc w (a * b).
-Proof. reflexivity. Qed.
+Lemma Mul_char w a b : 0 <= w -> Mul_propagate w a b = trunc w (a * b).
+Proof. intros Hw. unfold Mul_propagate. norm_masks. finish_arith. Qed.
 
 Lemma Bit_char k a : 0 <= k -> Bit_propagate 1 k a = bitZ a k.
-Proof.
-  intros Hk. unfold Bit_propagate. cbv zeta. rewrite Wire_put_trunc. apply trunc_small; [lia|].
-  change (Z.land (py_shr a k) 1) with (bitZ a k). pose proof (bitZ_range a k Hk). change (2 ^ 1) with 2. lia.
-Qed.
+Proof. intros Hk. unfold Bit_propagate. norm_masks. norm_bits. finish_arith. Qed.
 
-Lemma Buf_char w a : Buf_propagate w a = trunc w a.
-Proof. reflexivity. Qed.
+Lemma Buf_char w a : 0 <= w -> Buf_propagate w a = trunc w a.
+Proof. intros Hw. unfold Buf_propagate. norm_masks. finish_arith. Qed.
 
+(* Not / And2 on one-bit wires: by evaluation on the four bit patterns (any formulation of ~ and & computes the same) *)
 Lemma Not_bit b : 0 <= b <= 1 -> Not_propagate 1 b = 1 - b.
-Proof.
-  intros Hb. unfold Not_propagate. cbv zeta. rewrite Wire_put_trunc.
-  assert (Hc : b = 0 \/ b = 1) by lia. destruct Hc as [-> | ->]; reflexivity.
-Qed.
+Proof. intros Hb. assert (Hc : b = 0 \/ b = 1) by lia. destruct Hc as [-> | ->]; vm_compute; reflexivity. Qed.
 
 Lemma And2_bit x y : 0 <= x <= 1 -> 0 <= y <= 1 -> And2_propagate 1 x y = x * y.
 Proof.
   intros Hx Hy. assert (Hc : x = 0 \/ x = 1) by lia. assert (Hd : y = 0 \/ y = 1) by lia.
-  destruct Hc as [-> | ->], Hd as [-> | ->]; reflexivity.
+  destruct Hc as [-> | ->], Hd as [-> | ->]; vm_compute; reflexivity.
 Qed.
 
 (* what FixedPointMult needs from Range: high = low + wr asks for wr+1 bits, the wr-bit wire keeps wr of them.
@@ -41,10 +69,9 @@ Qed.
 Lemma Range_window wr low a : 0 <= wr -> 0 <= low ->
   Range_propagate wr (low + wr) low a = trunc wr (a / 2 ^ low).
 Proof.
-  intros Hw Hl. unfold Range_propagate. cbv zeta. rewrite Wire_put_trunc.
-  unfold py_shr, py_shl. rewrite shiftr_div by lia.
-  match goal with |- trunc wr (Z.land ?x (Z.shiftl 1 ?k - 1)) = _ => change (Z.land x (Z.shiftl 1 k - 1)) with (trunc k x) end.
-  apply trunc_trunc_le. lia.
+  intros Hw Hl. unfold Range_propagate. norm_masks. rewrite ?shiftr_div by lia.
+  (* trunc wr (trunc k (a / 2^low)) with k = high-low+1 (or any k >= wr), or no inner mask at all *)
+  rewrite ?trunc_trunc_le by lia. finish_arith.
 Qed.
 
 (* ---- lists of bits *)
@@ -71,44 +98,66 @@ Proof. revert k; induction n as [|n IH]; intros [|k] H; cbn [repeat nth]; try li
 Lemma BitsLSBF_char w a : 0 <= w ->
   BitsLSBF_propagate w (repeat 1 (Z.to_nat w)) a = map (fun i => bitZ a i) (seqZ 0 w).
 Proof.
-  intros Hw. unfold BitsLSBF_propagate. cbv zeta. apply map_ext_in. intros i Hi. apply in_seqZ in Hi.
-  unfold getZ. rewrite nth_repeat1 by lia. rewrite Wire_put_trunc.
-  change (Z.land (py_shr a i) 1) with (bitZ a i). apply trunc_small; [lia|].
-  pose proof (bitZ_range a i ltac:(lia)). change (2 ^ 1) with 2. lia.
+  intros Hw. unfold BitsLSBF_propagate. cbv zeta. apply map_ext_in. intros i Hi. apply in_seqZ in Hi. cbv beta.
+  unfold getZ. rewrite nth_repeat1 by lia. norm_masks. norm_bits. finish_arith.
 Qed.
 
-(* SignExtend: the loop ORs the top bit of a into positions wa .. wr-1 *)
+(* the OR-accumulation may start from the value itself or from 0 and be merged afterwards: both are v | E *)
+Lemma fold_lor_acc (g : Z -> Z) (l : list Z) acc :
+  fold_left (fun a i => Z.lor a (g i)) l acc = Z.lor acc (fold_left (fun a i => Z.lor a (g i)) l 0).
+Proof.
+  revert acc. induction l as [|x l IH]; intros acc; cbn [fold_left]; [rewrite Z.lor_0_r; reflexivity|].
+  rewrite IH, (IH (Z.lor 0 (g x))). rewrite Z.lor_0_l, Z.lor_assoc. reflexivity.
+Qed.
+
+(* ORing a bit hb into positions wa .. k-1 *)
+Lemma fill_loop hb wa (n : nat) : 0 <= hb <= 1 -> 0 <= wa ->
+  fold_left (fun v i => Z.lor v (Z.shiftl hb i)) (seqZ wa (wa + Z.of_nat n)) 0 = hb * (2 ^ (wa + Z.of_nat n) - 2 ^ wa).
+Proof.
+  intros Hhb Hwa. induction n as [|n IH].
+  - rewrite seqZ_nil by lia. cbn [fold_left]. replace (wa + Z.of_nat 0) with wa by lia. lia.
+  - replace (wa + Z.of_nat (S n)) with (wa + Z.of_nat n + 1) by lia.
+    rewrite seqZ_snoc by lia. rewrite fold_left_app, IH. cbn [fold_left].
+    set (k := wa + Z.of_nat n).
+    assert (Hk : 2 ^ wa <= 2 ^ k) by (apply pow2_le; lia).
+    pose proof (pow2_pos wa Hwa).
+    rewrite Z.lor_comm, lor_add_disjoint by nia.
+    rewrite Z.pow_add_r by lia. change (2 ^ 1) with 2. lia.
+Qed.
+
+(* SignExtend: the loop ORs the top bit of a into positions wa .. wr-1.  Accepted shapes: accumulator starting at the value
+   or at 0 and merged with `|` afterwards in either order; top bit as `a >> (wa-1)` with or without `& 1` / `% 2`. *)
 Lemma SignExtend_char wa wr a : 0 < wa <= wr -> 0 <= a < 2 ^ wa ->
   SignExtend_propagate wa wr a = trunc wr (sgn wa a).
 Proof.
-  intros Hw Ha. unfold SignExtend_propagate. cbv zeta. rewrite Wire_put_trunc.
-  set (hb := py_shr a (wa - 1)).
+  intros Hw Ha. unfold SignExtend_propagate. norm_masks. norm_bits.
   assert (Hpw : 2 ^ wa = 2 * 2 ^ (wa - 1)).
   { replace wa with (1 + (wa - 1)) at 1 by lia. rewrite Z.pow_add_r by lia. reflexivity. }
   pose proof (pow2_pos (wa - 1) ltac:(lia)) as Hp1.
-  assert (Hhb : hb = if a <? 2 ^ (wa - 1) then 0 else 1).
-  { unfold hb, py_shr. rewrite shiftr_div by lia. destruct (Z.ltb_spec a (2 ^ (wa - 1))).
+  assert (Hshr : Z.shiftr a (wa - 1) = if a <? 2 ^ (wa - 1) then 0 else 1).
+  { rewrite shiftr_div by lia. destruct (Z.ltb_spec a (2 ^ (wa - 1))).
     - apply Z.div_small; lia.
     - symmetry. apply Z.div_unique with (a - 2 ^ (wa - 1)); lia. }
-  (* loop invariant: after positions wa .. k-1 the value is a + hb * (2^k - 2^wa) *)
-  assert (Hloop : forall n : nat,
-    fold_left (fun v i => Z.lor v (py_shl hb i)) (seqZ wa (wa + Z.of_nat n)) a
-    = a + hb * (2 ^ (wa + Z.of_nat n) - 2 ^ wa)).
-  { induction n as [|n IH].
-    - rewrite seqZ_nil by lia. cbn [fold_left]. replace (wa + Z.of_nat 0) with wa by lia. lia.
-    - replace (wa + Z.of_nat (S n)) with (wa + Z.of_nat n + 1) by lia.
-      rewrite seqZ_snoc by lia. rewrite fold_left_app, IH. cbn [fold_left].
-      set (k := wa + Z.of_nat n). unfold py_shl.
-      assert (Hk : 2 ^ wa <= 2 ^ k) by (apply pow2_le; lia).
-      rewrite Z.lor_comm, lor_add_disjoint.
-      + rewrite Z.pow_add_r by lia. change (2 ^ 1) with 2. lia.
-      + lia.
-      + rewrite Hhb. destruct (a <? 2 ^ (wa - 1)); lia. }
+  assert (Hbit : bitZ a (wa - 1) = Z.shiftr a (wa - 1)).
+  { rewrite bitZ_b2z, testbit_high, Hshr by lia.
+    destruct (Z.leb_spec (2 ^ (wa - 1)) a), (Z.ltb_spec a (2 ^ (wa - 1))); cbn [b2z]; lia. }
+  rewrite ?Hbit.
+  set (hb := Z.shiftr a (wa - 1)) in *.
+  assert (Hhb : 0 <= hb <= 1) by (rewrite Hshr; destruct (a <? 2 ^ (wa - 1)); lia).
+  (* bring the accumulation to  a | (fold from 0) *)
+  try rewrite (fold_lor_acc (fun i => Z.shiftl hb i) _ a).
+  try match goal with |- context [Z.lor (fold_left ?f ?l 0) a] => rewrite (Z.lor_comm (fold_left f l 0) a) end.
   replace (seqZ wa wr) with (seqZ wa (wa + Z.of_nat (Z.to_nat (wr - wa)))) by (f_equal; lia).
-  rewrite Hloop. replace (wa + Z.of_nat (Z.to_nat (wr - wa))) with wr by lia.
-  unfold sgn. rewrite Hhb. destruct (Z.ltb_spec a (2 ^ (wa - 1))).
-  - f_equal. lia.
-  - replace (a + 1 * (2 ^ wr - 2 ^ wa)) with (a - 2 ^ wa + 1 * 2 ^ wr) by lia.
+  rewrite (fill_loop hb wa) by lia. replace (wa + Z.of_nat (Z.to_nat (wr - wa))) with wr by lia.
+  (* a | hb*(2^wr - 2^wa): disjoint bits, so it is a sum *)
+  assert (Hsplit : 2 ^ wr = 2 ^ (wr - wa) * 2 ^ wa) by (rewrite <- Z.pow_add_r by lia; f_equal; lia).
+  pose proof (pow2_pos (wr - wa) ltac:(lia)) as Hp2.
+  replace (hb * (2 ^ wr - 2 ^ wa)) with (Z.shiftl (hb * (2 ^ (wr - wa) - 1)) wa)
+    by (rewrite Z.shiftl_mul_pow2 by lia; rewrite Hsplit; ring).
+  rewrite Z.lor_comm, lor_add_disjoint by lia.
+  unfold sgn. subst hb. rewrite Hshr. destruct (Z.ltb_spec a (2 ^ (wa - 1))).
+  - f_equal; lia.
+  - replace (1 * (2 ^ (wr - wa) - 1) * 2 ^ wa + a) with (a - 2 ^ wa + 1 * 2 ^ wr) by (rewrite Hsplit; ring).
     apply trunc_add_pow; lia.
 Qed.
 
@@ -117,14 +166,6 @@ Qed.
    rewrites the sign-bit expression to b2z (2^(w-1) <=? v), splits on THAT comparison, evaluates whatever closed tests
    (`1 =? 1`, `0 =? 0`, `1 =? 0`, ...) the translated code makes on it, and simplifies `x | (0 << w)`.  So it survives
    renamed / introduced locals, swapped branches, early returns and a fill pattern computed on one path only. *)
-Lemma mod_shiftl_trunc x w : 0 <= w -> x mod Z.shiftl 1 w = trunc w x.
-Proof. intros; rewrite Z.shiftl_1_l, trunc_mod by lia; reflexivity. Qed.
-
-Ltac norm_masks :=
-  unfold py_shl, py_shr in *; cbv zeta;
-  repeat match goal with |- context [Z.land ?x (Z.shiftl 1 ?w - 1)] => change (Z.land x (Z.shiftl 1 w - 1)) with (trunc w x) end;
-  rewrite ?mod_shiftl_trunc by lia.
-
 Ltac eval_closed_tests :=
   repeat match goal with
   | |- context [if ?c then _ else _] =>
